@@ -98,6 +98,13 @@ CLAIMED["C12"] = dict(
     note="asyncio objects only. The thread-safe blocking clients (threading locks) are NOT claimed: OS-thread interleavings cannot be made symbolic by any installed engine; their lock discipline (timed acquisition, release only when held) is covered single-threaded by C11.",
 )
 
+CLAIMED["C14"] = dict(
+    text="Bounded symbolic execution with the crash point as a solver variable: each close path (stapled transports, aclose_forcefully, AsyncStreamEndpoint.aclose, server-side _ConnectedClientAPI.aclose, the asyncio socket adapter, AsyncTLSStreamTransport.aclose and .wrap with a peer that never answers) runs in a task on a deterministic loop; task.cancel() is injected at loop iteration k (symbolic), combined with a solver-chosen fault (which wrapped close/send raises OSError or RuntimeError) and whether the TLS shutdown/handshake timeout expires first. Asserted: aclose() was invoked on every wrapped transport (both stapled halves even if the first raised; the wrapped transport after a failed or cancelled wrap()), is_closing() holds, a second aclose() returns promptly.",
+    design="4/C14",
+    technique="symbolic execution of real code (CrossHair+z3): cancellation point, fault choice and timeout-first choice as solver variables on a deterministic asyncio loop",
+    note="TLS paths use a stub SSL object (peer silent); real OpenSSL shutdown is outside. AsyncTCPNetworkClient.aclose over real sockets is outside.",
+)
+
 NOT_APPLICABLE = {
     "C08": "TLS byte-transparency/encryption is decided inside OpenSSL's record layer (C code, cryptography): it cannot be executed symbolically by any installed engine; stubbing it would verify the stub, and running real OpenSSL realises every symbolic size (degenerates to concrete enumeration). See DESIGN.md section 5.",
     "C09": "Whether a cut at a byte offset of a real ciphertext stream yields SSLEOFError / SSLZeroReturnError / a protocol error is OpenSSL's partial-record parsing, not encodable; the EasyNetwork part is a three-way exception mapping. See DESIGN.md section 5.",
